@@ -205,8 +205,11 @@ pub fn parse_docs(attrs: &[Attribute]) -> Result<String> {
             Expr::Lit(ExprLit {
                 lit: Lit::Str(ref str),
                 ..
-            // `*/` would end the generated comment
-            }) => Ok(str.value().replace("*/", "*\\/")),
+            // `*/` would end the generated comment, and so would a leading `/` after the ` *` or `/**` put before it
+            }) => {
+                let doc = str.value().replace("*/", "*\\/");
+                Ok(if doc.starts_with('/') { format!(" {doc}") } else { doc })
+            }
             _ => syn_err!(attr.span(); "doc  with non literal expression found"),
         })
         .collect::<Result<Vec<_>>>()?;
